@@ -16,7 +16,7 @@ def handle_classes(F):
         if not f.get('dtor') or not f.get('blocks') or not f.get('record'): continue
         rec = (F.rec_by_q.get(f['record']) or [None])[0]
         if rec is None: continue
-        ptrs = {fl['name'] for fl in rec['fields'] if not fl.get('static') and (fl.get('type', '').endswith('*') or re.search(r'coroutine_handle|\bint\b', fl.get('type', '')))}
+        ptrs = {fl['name'] for fl in rec['fields'] if not fl.get('static') and (fl.get('type', '').endswith('*') or re.search(r'coroutine_handle|\bint\b|size_t|\bunsigned\b', fl.get('type', '')))}
         if not ptrs: continue
         G = Graph(f)
         for t, e in G.ev.items():
@@ -189,3 +189,35 @@ def _mks(prop):
 
 for _p in ('C19', 'C10', 'C14', 'C18', 'C08'):
     _mks(_p)
+
+
+# ---------------------------------------------------------------------------------------------- R-ASSIGN-RELEASE
+@rule('R-ASSIGN-RELEASE', ['C14', 'C18', 'C10', 'C08', 'C19', 'C02'], floor=0)
+def assign_releases_old(run, F):
+    """an assignment operator of a single-owner handle class (destructor releases iff the handle is set) that takes its right-hand side by reference and overwrites the handle member first releases the resource the object currently owns - by calling what the destructor calls (close, munmap, destroy, ...) on every path before the overwrite - or swaps with the right-hand side; by-value copy-and-swap operators are safe by construction: otherwise assigning onto a live object leaks its descriptor / mapping / coroutine frame (released zero times)"""
+    n = 0
+    for rec, dtor, m in handle_classes(F):
+        q = rec['qname']; short = re.sub(r'<.*', '', q.split('::')[-1])
+        rel = {(e['callee'].get('name') or '').split('::')[-1] for _, _, e in events(dtor) if e['k'] == 'call'} - {'', 'valid', 'operator bool', 'get', 'exchange', 'move'}
+        if any(e['k'] == 'delete' for _, _, e in events(dtor)): rel.add('delete')
+        for g in F.by_record.get(q, []):
+            if g['name'] != 'operator=' or not g.get('blocks') or len(g.get('params', [])) != 1: continue
+            t = g['params'][0]['type']
+            if not re.search(r'\b%s\b' % re.escape(short), t): continue
+            n += 1
+            if not t.rstrip().endswith('&'):
+                run.inst(site(g), 'by-value right-hand side: the old resource dies with the parameter', nontrivial=False, key=(q, t)); continue
+            G = Graph(g)
+            other = g['params'][0]['name']
+            run.inst(site(g), 'old %s released (%s) or swapped before it is overwritten' % (m, sorted(rel)), key=(q, t))
+            releases = {x for x, e in G.ev.items() if (e.get('k') == 'call' and ((e['callee'].get('name') or '').split('::')[-1] in rel or (e['callee'].get('name') or '').split('::')[-1] == 'swap')) or (e.get('k') == 'delete' and 'delete' in rel)}
+            for x, e in G.ev.items():
+                w = False
+                if e.get('k') == 'assign' and last_field(e.get('lhs') or '') == m and (e['lhs'].split('.')[0] in ('this', m)): w = True
+                if e.get('k') == 'call' and e['callee'].get('name') == 'exchange' and e.get('args') and isinstance(e['args'][0], dict) and (e['args'][0].get('p') or '') in ('this.' + m, m): w = True
+                if not w: continue
+                if not G.dominated_by_any(x, releases):
+                    run.violation(g['qname'], 'overwrite-without-release:' + m, '%s:%s' % (g['file'], G.line(x)),
+                                  '%s overwrites `%s` without first releasing the resource the object currently owns (the destructor releases it through %s): assigning onto a live %s leaks its resource - it is released zero times' % (
+                                      g['qname'].replace('unifex::', ''), m, sorted(rel) or 'its body', q.replace('unifex::', '')))
+                    break
